@@ -72,6 +72,19 @@ Theorem C10_reopen_any_commit :
 Proof. intros W WOK. exact (@reopen_any W WOK). Qed.
 Print Assumptions C10_reopen_any_commit.
 
+(* 1b'. every blob named by a committed root is in the database, at the commit and at every
+   later point: for every account of the committed account trie the storage trie under its
+   Root, the code under its CodeHash and the delegation list under its DelegationsHash
+   resolve ([Resolved]).  This is what the per-object dirty marks (dirtyCode, dirtyDlgs,
+   the dirty set, explicit in Model.sobj / accs and mirrored flag update by flag update)
+   are for; a flag lowered while its blob is unwritten breaks it (seeded regression C10_6). *)
+Theorem C10_committed_blobs_present :
+  forall (W : World) (WOK : WorldOk W) d s l1 de l2, DbOk d -> Inv d s ->
+    let c := commit (fst (crun (d, s) l1)) de (snd (crun (d, s) l1)) in
+    forall a x, Model.find (ac_trie (s_acc (snd c))) a = Some x -> Resolved (fst (crun c l2)) x.
+Proof. intros W WOK. exact (@committed_blobs W WOK). Qed.
+Print Assumptions C10_committed_blobs_present.
+
 (* 1c. the Database's cache of committed tries (cachingDB.pastTries: live trie objects of
    the committing StateDBs, looked up by re-hashing; Model.mopen_acct and its siblings) is transparent: over a
    machine whose StateDBs have the invariant, state.New through the cache returns exactly
